@@ -328,6 +328,52 @@ func genServe(rng *core.Rand) string {
 	return line
 }
 
+// genPair: a faulted browse request followed by a browse request on another instance.
+func genPair(rng *core.Rand) string {
+	fields := func(w *world, hide []string, p string) string {
+		return fmt.Sprintf("%s %s %s . %s %s %s %s", core.Hex(w.cwd), core.Hex(w.rootCfg), showList(hide),
+			bits(true, rng.Chance(1, 5), true), core.Hex(p), core.Hex(p), w.treeField())
+	}
+	dirPath := func(w *world) string {
+		if rng.Chance(1, 3) {
+			for _, d := range []string{"sub", "hidden", "noindex", ".git"} {
+				if n, ok := w.tree[path.Join(w.R, d)]; ok && n.k == 'd' {
+					return "/" + d + "/"
+				}
+			}
+		}
+		return "/"
+	}
+	wa := genWorld(rng)
+	hideA := genHide(rng, wa)
+	if rng.Chance(1, 2) {
+		hideA = nil
+	}
+	pa := dirPath(wa)
+	var wb *world
+	var hideB []string
+	if rng.Chance(1, 2) {
+		// the same site served by another instance that hides more
+		wb = wa
+		hideB = append(append([]string{}, hideA...), rng.Pick([]string{"secret.txt", "*.txt", ".git", "sub", "secret*", "index.*", "a.txt"}))
+		if rng.Chance(1, 3) {
+			hideB = append(hideB, wb.R+"/secret.txt")
+		}
+	} else {
+		wb = genWorld(rng)
+		hideB = genHide(rng, wb)
+	}
+	pb := dirPath(wb)
+	if wb == wa && rng.Chance(2, 3) {
+		pb = pa
+	}
+	fault := "t"
+	if rng.Chance(2, 3) {
+		fault = "w" + itoa([]int{0, 0, 1, 2, 7, 20, 60, 150, 400, 100000}[rng.Intn(10)])
+	}
+	return "pair " + fault + " " + fields(wa, hideA, pa) + " // " + fields(wb, hideB, pb)
+}
+
 var tryPool = []tryFile{
 	{"", true, ""}, {"", true, ""}, {"", true, ""}, {"", true, "/"}, {"", true, ".html"}, {"", true, "/index.html"},
 	{"/index.html", false, ""}, {"/sub/", false, ""}, {"/*.txt", false, ""}, {"/s*/b.txt", false, ""}, {"/[", false, ""},
@@ -403,5 +449,8 @@ func (prop) Generate(rng *core.Rand, tier string, emit func(string)) {
 	}
 	for i := 0; i < 10000*scale; i++ {
 		emit(genMatch(rng))
+	}
+	for i := 0; i < 1200*scale; i++ {
+		emit(genPair(rng))
 	}
 }
